@@ -21,8 +21,8 @@ package main
 //	T  i            Tick()
 //	R  i            crash + restart: the RawNode is rebuilt from its MemoryStorage
 //	K  i k          compaction of the log up to (model) index k; SR i j: ReportSnapshot(j, failure)
-//	CC i code       (simcc only) ProposeConfChange: 100+x add voter x, 200+x remove voter x,
-//	                1000+10a+b add a and remove b through an auto-leave joint configuration
+//	CC i code       (simcc only) ProposeConfChange: 100+x add voter x, 110+x remove voter x,
+//	                130+10a+b add a and remove b through an auto-leave joint configuration
 //	D  i <msg>      Step(msg) of an in-flight message addressed to i (removed from the network)
 //	DD i <msg>      the same, but the message stays in flight (duplication)
 //	FP/FPD i from p Step of a forwarded MsgProp (FPD: it stays in flight)
@@ -38,7 +38,7 @@ package main
 //	N <n> <electionTick> <rngseed> <MaxSizePerMsg>
 //	EV <kind> <node> <args>
 //	OUT <msg>                     (0 or more: what the node handed to the network)
-//	ST <node> <term> <vote> <commit> <role F|C|L> <lead> <nlog> (<term> <payload>)*
+//	ST <node> <term> <vote> <commit> <role F|C|L> <lead> <nlog> (<term> <payload>)* [CFG <nin> ids <nout> ids <autoleave>]
 //
 //	<msg> = <type> <from> <to> <term> <logterm> <index> <commit> <reject 0|1> <nents> (<term> <payload>)*
 //	type: V MsgVote, W MsgVoteResp, A MsgApp, B MsgAppResp, H MsgHeartbeat, I MsgHeartbeatResp,
@@ -51,6 +51,7 @@ import (
 	"fmt"
 	"os"
 	"path/filepath"
+	"sort"
 	"strconv"
 	"strings"
 
@@ -74,6 +75,9 @@ type simNode struct {
 	shadow []pb.Entry
 	// the log prefix carried (as ghost information) by the MsgSnap being stepped
 	pendingGhost []pb.Entry
+	// AutoLeave of the node's configuration, as returned by the last ApplyConfChange
+	// (Status().Config is a Clone() that does not carry it)
+	autoLeave bool
 }
 
 // a message on the network; ghost = for MsgSnap, the sender's log up to the snapshot index
@@ -108,21 +112,65 @@ func monus1(x uint64) uint64 {
 	return x - 1
 }
 
+// payloadOf renders an entry's content as the model's payload id: 0 = empty, 1..97 = a proposal,
+// conf changes: 100+x add voter x, 110+x remove voter x, 120 leave joint, 130+10a+b add a / remove b
+// through an auto-leave joint configuration (999 = a conf change the model has no code for).
 func payloadOf(e pb.Entry) uint64 {
 	switch e.Type {
 	case pb.EntryConfChange:
-		return 98
+		var cc pb.ConfChange
+		if err := cc.Unmarshal(e.Data); err != nil {
+			return 999
+		}
+		return ccCode(cc.AsV2())
 	case pb.EntryConfChangeV2:
-		return 99
+		var cc pb.ConfChangeV2
+		if err := cc.Unmarshal(e.Data); err != nil {
+			return 999
+		}
+		return ccCode(cc)
 	}
 	if len(e.Data) == 0 {
 		return 0
 	}
 	v, err := strconv.ParseUint(string(e.Data), 10, 64)
 	if err != nil {
-		return 999999
+		return 999
 	}
 	return v
+}
+
+func ccCode(cc pb.ConfChangeV2) uint64 {
+	switch {
+	case cc.LeaveJoint():
+		return 120
+	case len(cc.Changes) == 1 && cc.Transition == pb.ConfChangeTransitionAuto && cc.Changes[0].NodeID <= 9:
+		switch cc.Changes[0].Type {
+		case pb.ConfChangeAddNode:
+			return 100 + cc.Changes[0].NodeID
+		case pb.ConfChangeRemoveNode:
+			return 110 + cc.Changes[0].NodeID
+		}
+	case len(cc.Changes) == 2 && cc.Transition == pb.ConfChangeTransitionAuto &&
+		cc.Changes[0].Type == pb.ConfChangeAddNode && cc.Changes[1].Type == pb.ConfChangeRemoveNode &&
+		cc.Changes[0].NodeID <= 9 && cc.Changes[1].NodeID <= 9:
+		return 130 + 10*cc.Changes[0].NodeID + cc.Changes[1].NodeID
+	}
+	return 999
+}
+
+func idsStr(m map[uint64]struct{}) string {
+	ids := make([]int, 0, len(m))
+	for id := range m {
+		ids = append(ids, int(id))
+	}
+	sort.Ints(ids)
+	var b strings.Builder
+	fmt.Fprintf(&b, "%d", len(ids))
+	for _, id := range ids {
+		fmt.Fprintf(&b, " %d", id)
+	}
+	return b.String()
 }
 
 func entsStr(es []pb.Entry) string {
@@ -249,13 +297,13 @@ func (c *cluster) drain(nd *simNode) []pb.Message {
 				if err := cc.Unmarshal(e.Data); err != nil {
 					panic(err)
 				}
-				nd.rn.ApplyConfChange(cc)
+				nd.autoLeave = nd.rn.ApplyConfChange(cc).AutoLeave
 			case pb.EntryConfChangeV2:
 				var cc pb.ConfChangeV2
 				if err := cc.Unmarshal(e.Data); err != nil {
 					panic(err)
 				}
-				nd.rn.ApplyConfChange(cc)
+				nd.autoLeave = nd.rn.ApplyConfChange(cc).AutoLeave
 			}
 		}
 		nd.rn.Advance(rd)
@@ -269,6 +317,7 @@ func (c *cluster) rebuild(nd *simNode) {
 		panic(err)
 	}
 	nd.rn = rn
+	nd.autoLeave = false // the storage's ConfState; committed conf changes are re-applied by the Ready loop
 }
 
 func (c *cluster) writeState(nd *simNode) {
@@ -300,7 +349,17 @@ func (c *cluster) writeState(nd *simNode) {
 		}
 	}
 	es := nd.shadow
-	fmt.Fprintf(c.w, "ST %d %d %d %d %s %d %s\n", nd.id, bs.Term, bs.Vote, monus1(bs.Commit), role, bs.Lead, entsStr(es))
+	fmt.Fprintf(c.w, "ST %d %d %d %d %s %d %s", nd.id, bs.Term, bs.Vote, monus1(bs.Commit), role, bs.Lead, entsStr(es))
+	if c.ccVoters > 0 {
+		// the node's current configuration: incoming voters, outgoing voters, AutoLeave
+		cfg := nd.rn.Status().Config
+		auto := 0
+		if nd.autoLeave {
+			auto = 1
+		}
+		fmt.Fprintf(c.w, " CFG %s %s %d", idsStr(cfg.Voters[0]), idsStr(cfg.Voters[1]), auto)
+	}
+	fmt.Fprintln(c.w)
 }
 
 // one event: kind is C P T R D DD FP or the X-variants; m is the message for D/DD/FP.
@@ -355,15 +414,15 @@ func (c *cluster) exec(kind string, i int, payload int, m *flightMsg) (ok bool) 
 	case "SR":
 		nd.rn.ReportSnapshot(uint64(payload), raft.SnapshotFailure)
 	case "CC":
-		// 100+x: add voter x; 200+x: remove voter x; 1000+10a+b: add a and remove b through a
-		// joint configuration that is left automatically
+		// the model's payload codes: 100+x add voter x; 110+x remove voter x; 130+10a+b add a and
+		// remove b through a joint configuration that is left automatically
 		switch {
-		case payload >= 1000:
-			a, b := uint64((payload-1000)/10), uint64((payload-1000)%10)
+		case payload >= 130:
+			a, b := uint64((payload-130)/10), uint64((payload-130)%10)
 			_ = nd.rn.ProposeConfChange(pb.ConfChangeV2{Changes: []pb.ConfChangeSingle{
 				{Type: pb.ConfChangeAddNode, NodeID: a}, {Type: pb.ConfChangeRemoveNode, NodeID: b}}})
-		case payload >= 200:
-			_ = nd.rn.ProposeConfChange(pb.ConfChange{Type: pb.ConfChangeRemoveNode, NodeID: uint64(payload - 200)})
+		case payload >= 110:
+			_ = nd.rn.ProposeConfChange(pb.ConfChange{Type: pb.ConfChangeRemoveNode, NodeID: uint64(payload - 110)})
 		default:
 			_ = nd.rn.ProposeConfChange(pb.ConfChange{Type: pb.ConfChangeAddNode, NodeID: uint64(payload - 100)})
 		}
@@ -515,9 +574,9 @@ func (c *cluster) runRandom(r *rng, nevents int) {
 			case 0, 1:
 				code = 100 + 1 + r.intn(c.n)
 			case 2, 3:
-				code = 200 + 2 + r.intn(c.n-1)
+				code = 110 + 2 + r.intn(c.n-1)
 			default:
-				code = 1000 + 10*(1+r.intn(c.n)) + 2 + r.intn(c.n-1)
+				code = 130 + 10*(1+r.intn(c.n)) + 2 + r.intn(c.n-1)
 			}
 			if c.n >= 2 {
 				ok = c.exec("CC", r.intn(c.n), code, nil)
